@@ -232,7 +232,7 @@ def run_faults(b: Batch, state, recursive, errnos, ctx):
         for en in errnos:
             kind, path = log[k]
             b.case()
-            rs = {"kind": "fault1", "state": sorted(state.items()), "recursive": recursive, "k": k, "errno": en}
+            rs = {"kind": "fault1", "state": sorted(state.items()), "recursive": recursive, "k": k, "errno": en, "lazy": VFS().lazy}
             wit = dict(ctx, state=sorted(state.items()), recursive=recursive, k=k, call=(kind, path), errno=errno.errorcode[en])
             # ---- emitter level: baseline fault-free, poll with the fault, poll without
             v = VFS()
@@ -295,6 +295,75 @@ def run_faults(b: Batch, state, recursive, errnos, ctx):
                     b.violation("fault-snapshot", f"snapshot {sorted(s.paths)!r} != tree minus failed entry", witness=wit, replay_spec=rs)
 
 
+def run_stop_during_walk(b: Batch, s0, s1, recursive, k, ctx):
+    """stop() of the emitter lands while a poll is inside its walk (at call k; the tree may also change there): whatever
+    that poll still queues must be the true difference between the previous snapshot and the tree - or nothing - never a
+    difference against some other baseline."""
+    import threading
+
+    v = VFS()
+    v.set_state(s0)
+    em, q = mk_emitter(v, recursive)
+    em.on_thread_start()
+    v.calls = 0
+    at_k = threading.Event()
+    go = threading.Event()
+    fired = []
+
+    def hook(vfs, kind, path, idx):
+        if idx == k and not fired:
+            fired.append(1)
+            vfs.set_state(s1)
+            at_k.set()
+            go.wait(5)
+
+    v.hook = hook
+    err = []
+
+    def poll():
+        try:
+            em.queue_events(0)
+        except BaseException as e:  # noqa: BLE001
+            err.append(e)
+
+    t = threading.Thread(target=poll, name="wdv-poller", daemon=True)
+    t.start()
+    reached = at_k.wait(5)
+    if reached:
+        st = threading.Thread(target=em.stop, name="wdv-stopper", daemon=True)
+        st.start()
+        st.join(0.05)  # stop() may or may not wait for the poll; either is fine
+    go.set()
+    t.join(10)
+    if reached:
+        st.join(10)
+    b.case()
+    if not reached or t.is_alive():
+        return
+    b.count("stop_during_walk_judged")
+    b.nontrivial(["stopwalk", sorted(s0.items()), sorted(s1.items()), k, recursive])
+    wit = dict(ctx, s0=sorted(s0.items()), s1=sorted(s1.items()), k=k, recursive=recursive)
+    rs = {"kind": "stopwalk1", "s0": sorted(s0.items()), "s1": sorted(s1.items()), "k": k, "recursive": recursive, "lazy": v.lazy}
+    if err:
+        b.violation("race-escaped", f"{type(err[0]).__name__}: {err[0]} escaped queue_events when stop() landed during the walk", witness=wit, replay_spec=rs)
+        return
+    got = [ev_tuple(ev) for ev, _w in q.take()]
+    if not got:
+        return
+    if s0 == s1:
+        b.violation("poll-events-without-change", f"stop() during the walk of an unchanged tree: the poll queued {got[:4]!r}", witness=wit, replay_spec=rs)
+        return
+    # changed at call k: every queued event must be one the true difference s0 -> (a mix of s0 and s1) could contain:
+    # paths named must exist in s0 or s1, and nothing may be reported created that s0 already held under that identity
+    reach0 = v.reachable(recursive, s0)
+    ids0 = {ident(e): p for p, e in reach0.items()}
+    reach1 = v.reachable(recursive, s1)
+    for cls, src, dest in got:
+        if cls.endswith("CreatedEvent") and src in reach0 and src in reach1 and ident(reach0[src]) == ident(reach1[src]):
+            b.violation("poll-diff-mismatch", f"stop() during the walk: {cls}({src!r}) although that entry was in the previous snapshot and is unchanged", witness=wit, replay_spec=rs)
+            return
+
+
 def run_race(b: Batch, s0, s1, recursive, k, ctx):
     """At call k of the walk the tree changes from s0 to s1 (entries vanish, dir becomes file, ...)."""
     from watchdog.utils.dirsnapshot import DirectorySnapshot
@@ -314,7 +383,7 @@ def run_race(b: Batch, s0, s1, recursive, k, ctx):
     v.hook = hook
     b.case()
     wit = dict(ctx, s0=sorted(s0.items()), s1=sorted(s1.items()), k=k, recursive=recursive)
-    rs = {"kind": "race1", "s0": sorted(s0.items()), "s1": sorted(s1.items()), "k": k, "recursive": recursive}
+    rs = {"kind": "race1", "s0": sorted(s0.items()), "s1": sorted(s1.items()), "k": k, "recursive": recursive, "lazy": VFS().lazy}
     try:
         em.queue_events(0)
     except BaseException as e:  # noqa: BLE001
@@ -533,6 +602,13 @@ def run_batch(spec):
     b = Batch(spec)
     kind = spec["kind"]
     pool = list(range(1, 9))
+    from wdverif.env import vfs as _vfs
+
+    # every second batch of a kind runs with a listdir that does its work lazily (a generator): failures then surface
+    # while the listing is iterated, not when listdir() is called
+    _vfs.LAZY = bool(spec.get("lazy", spec.get("j", 0) % 2 == 1))
+    if _vfs.LAZY:
+        b.count("batches_with_lazy_listdir")
     if kind == "enum":
         refs = c09.canonical_refs()[spec["ref_lo"] : spec["ref_hi"]]
         for s0 in refs:
@@ -594,6 +670,9 @@ def run_batch(spec):
             for k in sorted(set([1, 2] + [r.randrange(1, max(2, n)) for _ in range(4)])):
                 if k < n:
                     run_race(b, s0, s1, rec, k, {"mode": "race"})
+            if n >= 2:
+                kk = r.randrange(1, n)
+                run_stop_during_walk(b, s0, s0 if r.random() < 0.6 else s1, rec, kk, {"mode": "stopwalk"})
     elif kind == "thread":
         r = rng_for(spec["seed"], "c10t", spec["j"])
         for n in range(spec["n"]):
@@ -612,6 +691,8 @@ def run_batch(spec):
         run_faults(b, {k: Ent(*v) for k, v in spec["state"]}, spec["recursive"], [spec["errno"]], {"mode": "replay"})
     elif kind == "race1":
         run_race(b, {k: Ent(*v) for k, v in spec["s0"]}, {k: Ent(*v) for k, v in spec["s1"]}, spec["recursive"], spec["k"], {"mode": "replay"})
+    elif kind == "stopwalk1":
+        run_stop_during_walk(b, {k: Ent(*v) for k, v in spec["s0"]}, {k: Ent(*v) for k, v in spec["s1"]}, spec["recursive"], spec["k"], {"mode": "replay"})
     elif kind == "rootgone1":
         run_root_gone(b, {k: Ent(*v) for k, v in spec["state"]}, spec["recursive"], {"mode": "replay"})
     elif kind == "thread1":
